@@ -90,7 +90,7 @@ PROPS = {
                        "mapping, holds the target's bytes (unsanitized) or zeros below the stack pointer (sanitized), reaches the mapping's end unless "
                        "shortened, and is shortened only under a limit at list position ≥ 20, never for the crash-context thread, to ≤ 2 KiB.",
         "extra_modules": ["MdwModel.Theorems.EndToEnd"],
-        "extra_theorems": ["gather_inv", "E2E_stack_contains_sp"],
+        "extra_theorems": ["gather_inv", "E2E_stack_contains_sp", "gather_order_agrees"],
     },
     "C20": {
         "rule": "real stack_has_pointer_to_mapping on stacks of length 0 … 64 with words at / next to both ends of the principal mapping at all "
@@ -103,7 +103,7 @@ PROPS = {
                        "E2E_skip_iff (Theorems/EndToEnd.lean): in the composed model of fill_thread_stack the stack is recorded iff the inclusion rule "
                        "holds on the copy actually taken (the shortened one under a limit), with the offset of the stack pointer in that copy.",
         "extra_modules": ["MdwModel.Theorems.EndToEnd"],
-        "extra_theorems": ["E2E_skip_iff"],
+        "extra_theorems": ["E2E_skip_iff", "gather_order_agrees"],
     },
     "C15": {
         "rule": "real thread_names_stream::write on a synthetic dumper: every subset of unnamed threads for n ≤ 6 (quick) / 8 (thorough), "
